@@ -3,6 +3,7 @@ from props.util import *
 
 TRUSTED = BASE_TRUSTED + [
     "hypothesis in the 2048-bit instance theorem: prime p2048 /\\ prime q2048 (not certifiable here); everything else about the constants is kernel-checked",
+    "ristretto255: the Edwards group law and the model's point arithmetic are proved (Base/Edwards.v, Proofs/RistrettoGroup.v); the 4-torsion quotient (RFC 9496 ENCODE/DECODE/equality on cosets) and the curve order are not, so the generic Laws record is not instantiated for ristretto; the model is tied to curve25519-dalek by correspondence",
     "Print Assumptions of constants theorems lists Coq's primitive 63-bit integer axioms (Bignums.BigZ evaluator used to compute g^q mod p at 2048 bits)",
 ]
 RULE = ("exhaustive tables of every element/exponent method over all residues of p=23 (and 47 in thorough) on both "
